@@ -27,6 +27,7 @@ CFG = """CONSTANTS
   Roots <- {roots}
   TViews <- {tv}
   BViews <- {bv}
+  QViews <- {qv}
   Root1 = "r"
   MaxDepth = {depth}
   AsBuilt = {asb}
@@ -37,8 +38,8 @@ CHECK_DEADLOCK FALSE
 """
 
 
-def cfg(depth, asb, invs, roots="Roots2", tv="TV1", bv="BV1", view=True):
-    return CFG.format(roots=roots, tv=tv, bv=bv, depth=depth, asb="TRUE" if asb else "FALSE",
+def cfg(depth, asb, invs, roots="Roots2", tv="TV1", bv="BV1", qv="QV0", view=True):
+    return CFG.format(roots=roots, tv=tv, bv=bv, qv=qv, depth=depth, asb="TRUE" if asb else "FALSE",
                       view="VIEW View" if view else "", invs="\n".join("INVARIANT " + i for i in invs))
 
 
@@ -48,7 +49,14 @@ KINDS = {
     "i3": lambda: (np.arange(15, dtype=np.int64).reshape(5, 3)[::-1].copy() * 3 + 1),
     "u4": lambda: (np.arange(16, dtype=np.uint8).reshape(4, 4)[::-1].copy() * 5 + 3),
     "i1": lambda: np.arange(9, dtype=np.int64)[::-1].copy() * 7 + 2,
+    # further dtypes / shapes the library keeps in tracked arrays: (n,2) float64 (Path2D vertices, uv),
+    # 3-D bool (dense voxel encoding), (3,) float64 (centre of mass, box extents), (4,4) float64 (transforms)
+    "f2": lambda: np.arange(10, dtype=np.float64).reshape(5, 2)[::-1].copy() * 1.5 + 0.25,
+    "b3": lambda: (np.arange(24).reshape(3, 2, 4) % 3 == 0),
+    "f1": lambda: np.array([0.5, 2.5, 1.5]),
+    "f44": lambda: np.eye(4) + np.arange(16, dtype=np.float64).reshape(4, 4)[::-1] / 8,
 }
+NEW_KINDS = ("f2", "b3", "f1", "f44")
 
 
 def _isint(a):
@@ -158,7 +166,62 @@ def _byteswap(a):
     a.byteswap(inplace=True)
 
 
+def _imatmul(a):
+    n = a.shape[-1]
+    a @= np.eye(n, dtype=a.dtype)[::-1] * a.dtype.type(2 if a.dtype.kind != "b" else 1)
+
+
+def _w_col(a):
+    a[..., 0] = a[..., 0] + _one(a)
+
+
+def _w_cmp_mask(a):
+    lo = np.asarray(a).min()
+    a[a > lo] = lo
+
+
+def _w_newaxis(a):
+    a[None, 0] = a[0] + _one(a)
+
+
+def _w_tuple_slices(a):
+    a[1:, ...] = a[:-1, ...] + _one(a)
+
+
+def _np_put(a):
+    np.put(a, [0, -1], [a.flat[0] + _one(a), a.flat[-1] + _one(a)])
+
+
+def _put_along_axis(a):
+    np.put_along_axis(a, np.zeros((1,) * a.ndim, dtype=np.int64), a.flat[0] + _one(a), axis=0)
+
+
+def _iadd_array(a):
+    a += np.arange(a.shape[-1]).astype(a.dtype) + _one(a)
+
+
+def _isub_self_row(a):
+    a -= np.asarray(a)[0].copy()
+
+
+def _imul_bool_and(a):
+    a &= np.asarray(a)[::-1].copy()
+
+
+def _setitem_list_index(a):
+    a[[0]] = a[[-1]] + _one(a)
+
+
+NEW_OVER = ("imatmul", "setitem_col", "setitem_cmp_mask", "setitem_newaxis", "setitem_tuple_slices", "np_put",
+            "put_along_axis", "iadd_array", "isub_row", "iand_array", "setitem_list_index")
+
 WRITE_OVER = [
+    ("imatmul", lambda a: a.ndim >= 2, _imatmul), ("setitem_col", lambda a: True, _w_col),
+    ("setitem_cmp_mask", lambda a: True, _w_cmp_mask), ("setitem_newaxis", lambda a: True, _w_newaxis),
+    ("setitem_tuple_slices", lambda a: len(a) > 1, _w_tuple_slices), ("np_put", lambda a: a.size > 1, _np_put),
+    ("put_along_axis", lambda a: True, _put_along_axis), ("iadd_array", lambda a: True, _iadd_array),
+    ("isub_row", lambda a: a.ndim >= 2, _isub_self_row), ("iand_array", lambda a: a.dtype.kind in "iub", _imul_bool_and),
+    ("setitem_list_index", lambda a: len(a) > 1, _setitem_list_index),
     ("setitem_item", lambda a: True, _w_item), ("setitem_row", lambda a: True, _w_row),
     ("setitem_slice", lambda a: len(a) > 1, _w_slice), ("setitem_mask", lambda a: True, _w_mask),
     ("setitem_fancy", lambda a: len(a) > 1, _w_fancy), ("setitem_ellipsis", lambda a: True, _w_ellipsis),
@@ -229,7 +292,90 @@ def _c_shuffle(a):
     np.random.RandomState(3).shuffle(a)
 
 
+def _c_flat_assign(a):
+    a.flat = np.asarray(a).ravel()[::-1].copy() + _one(a)
+
+
+def _c_flat_slice(a):
+    a.flat[1:3] = a.flat[0] + _one(a)
+
+
+def _c_out_tuple(a):
+    np.add(a, _one(a), out=(a,))
+
+
+def _c_out_positional(a):
+    np.add(a, _one(a), a)
+
+
+def _c_out_where(a):
+    m = np.zeros(a.shape, dtype=bool)
+    m.flat[::2] = True
+    np.add(a, _one(a), out=a, where=m)
+
+
+def _c_cumsum_out(a):
+    a.cumsum(axis=0, out=a)
+
+
+def _c_accumulate_out(a):
+    np.add.accumulate(a, axis=0, out=a)
+
+
+def _c_matmul_out(a):
+    n = a.shape[-1]
+    np.matmul(np.asarray(a).copy(), np.eye(n, dtype=a.dtype)[::-1] * a.dtype.type(2), out=a)
+
+
+def _c_dot_out(a):
+    n = a.shape[-1]
+    np.dot(np.asarray(a).copy(), np.eye(n, dtype=a.dtype)[::-1] * a.dtype.type(2), out=a)
+
+
+def _c_nditer(a):
+    with np.nditer(a, op_flags=["readwrite"]) as it:
+        for x in it:
+            x[...] = x + _one(a)
+
+
+def _c_copyto_where(a):
+    lo = np.asarray(a).min()
+    np.copyto(a, lo, where=np.asarray(a) > lo)
+
+
+def _c_choose_out(a):
+    np.choose(np.zeros(a.shape, dtype=np.int64), [np.asarray(a).copy() + _one(a)], out=a)
+
+
+def _c_divmod_out(a):
+    np.divmod(a, a.dtype.type(4), out=(a, np.empty(a.shape, dtype=a.dtype)))
+
+
+def _c_round_out(a):
+    a.round(0, out=a)
+
+
+def _c_maximum_out(a):
+    np.maximum(a, np.asarray(a).min() + _one(a), out=a)
+
+
+def _c_logical_not_out(a):
+    np.logical_not(a, out=a)
+
+
+NEW_CLEVEL = ("flat_assign", "flat_slice", "out_tuple", "out_positional", "out_where", "cumsum_out", "accumulate_out",
+              "matmul_out", "dot_out", "nditer_readwrite", "copyto_where", "choose_out", "divmod_out", "round_out",
+              "maximum_out", "logical_not_out")
+
 WRITE_CLEVEL = [
+    ("flat_assign", lambda a: True, _c_flat_assign), ("flat_slice", lambda a: a.size > 2, _c_flat_slice),
+    ("out_tuple", lambda a: True, _c_out_tuple), ("out_positional", lambda a: True, _c_out_positional),
+    ("out_where", lambda a: True, _c_out_where), ("cumsum_out", lambda a: len(a) > 1, _c_cumsum_out),
+    ("accumulate_out", lambda a: len(a) > 1, _c_accumulate_out), ("matmul_out", lambda a: a.ndim >= 2, _c_matmul_out),
+    ("dot_out", lambda a: a.ndim == 2, _c_dot_out), ("nditer_readwrite", lambda a: True, _c_nditer),
+    ("copyto_where", lambda a: True, _c_copyto_where), ("choose_out", lambda a: True, _c_choose_out),
+    ("divmod_out", lambda a: a.dtype.kind != "b", _c_divmod_out), ("round_out", lambda a: a.dtype.kind == "f", _c_round_out),
+    ("maximum_out", lambda a: True, _c_maximum_out), ("logical_not_out", lambda a: True, _c_logical_not_out),
     ("ufunc_out", lambda a: True, _c_ufunc_out), ("copyto", lambda a: True, _c_copyto),
     ("flat_setitem", lambda a: True, _c_flat), ("ufunc_at", lambda a: True, _c_ufunc_at),
     ("fill_diagonal", lambda a: a.ndim == 2, _c_fill_diag), ("clip_out", lambda a: True, _c_clip_out),
@@ -259,15 +405,90 @@ TVIEWS = [
     ("reverse", lambda a: True, lambda a: a[::-1]),
     ("row0", lambda a: a.ndim == 2, lambda a: a[0]),
     ("view_dtype_same", lambda a: True, lambda a: a.view(a.dtype)),
+    # views whose dtype differs from the source, numpy functions returning views, strided tricks
+    ("view_uint8", lambda a: a.dtype.itemsize > 1, lambda a: a.view(np.uint8)),
+    ("expand_dims", lambda a: True, lambda a: np.expand_dims(a, -1)),
+    ("split_tail", lambda a: len(a) > 2, lambda a: np.split(a, [1])[1]),
+    ("getitem_tuple", lambda a: a.ndim >= 2, lambda a: a[1:, ::2]),
+    ("col_ellipsis", lambda a: a.ndim >= 2, lambda a: a[..., -1]),
+    ("iter_row", lambda a: a.ndim >= 2, lambda a: next(iter(a))),
+    ("as_strided_subok", lambda a: True, lambda a: np.lib.stride_tricks.as_strided(a, subok=True)),
+    ("np_flip", lambda a: True, lambda a: np.flip(a, 0)),
+    ("moveaxis", lambda a: a.ndim >= 2, lambda a: np.moveaxis(a, 0, -1)),
+]
+NEW_TVIEWS = ("view_uint8", "expand_dims", "split_tail", "getitem_tuple", "col_ellipsis", "iter_row",
+              "as_strided_subok", "np_flip", "moveaxis")
+
+
+def _flat_c(m):
+    return m.reshape(-1)
+
+
+def _same(m):
+    return m
+
+
+# base-class aliases: (name, applicable, creator on the tracked array, the same selection on the mirror)
+BVIEWS = [
+    ("view_ndarray", lambda a: True, lambda a: a.view(np.ndarray), _same),
+    ("asarray", lambda a: True, lambda a: np.asarray(a), _same),
+    ("array_copy_false", lambda a: True, lambda a: np.array(a, copy=False), _same),
+    ("dunder_array", lambda a: True, lambda a: a.__array__(), _same),
+    ("asarray_slice", lambda a: len(a) > 2, lambda a: np.asarray(a)[1:], lambda m: m[1:]),
+    # plain arrays on the same memory that are not numpy views of the tracked object at all
+    ("frombuffer", lambda a: a.flags["C_CONTIGUOUS"], lambda a: np.frombuffer(a, dtype=a.dtype), _flat_c),
+    ("frombuffer_data", lambda a: a.flags["C_CONTIGUOUS"], lambda a: np.frombuffer(a.data, dtype=a.dtype), _flat_c),
+    ("memoryview", lambda a: a.flags["C_CONTIGUOUS"], lambda a: np.asarray(memoryview(a)), _same),
+    ("ndarray_buffer", lambda a: a.flags["C_CONTIGUOUS"], lambda a: np.ndarray(a.shape, a.dtype, buffer=a), _same),
+    ("base_attribute", lambda a: type(a.base) is np.ndarray and a.base.shape == a.shape, lambda a: a.base, _same),
+    ("as_strided", lambda a: True, lambda a: np.lib.stride_tricks.as_strided(a), _same),
+    ("ascontiguousarray", lambda a: a.flags["C_CONTIGUOUS"] and a.ndim >= 1, lambda a: np.ascontiguousarray(a), _same),
+    ("from_dlpack", lambda a: True, lambda a: np.from_dlpack(a), _same),
+    ("array_interface", lambda a: True, lambda a: np.asarray(_Iface(a)), _same),
+]
+NEW_BVIEWS = ("frombuffer", "frombuffer_data", "memoryview", "ndarray_buffer", "base_attribute", "as_strided",
+              "ascontiguousarray", "from_dlpack", "array_interface")
+
+
+class _Iface:
+    def __init__(self, a):
+        self.__array_interface__ = a.__array_interface__
+        self._keep = a
+
+
+# tracked aliases whose creation passes through a plain ndarray, so that __array_finalize__ does not see
+# (and does not mark) the tracked source: (name, applicable, creator(a, TrackedArray, tracked_array), mirror)
+QVIEWS = [
+    ("tracked_array", lambda a: a.flags["C_CONTIGUOUS"] and a.ndim >= 1, lambda a, TA, ta: ta(a), _same),
+    ("asarray_view_tracked", lambda a: True, lambda a, TA, ta: np.asarray(a).view(TA), _same),
+    ("view_ndarray_view_tracked", lambda a: True, lambda a, TA, ta: a.view(np.ndarray).view(TA), _same),
+    ("frombuffer_view_tracked", lambda a: a.flags["C_CONTIGUOUS"],
+     lambda a, TA, ta: np.frombuffer(a, dtype=a.dtype).view(TA), _flat_c),
+    ("tracked_array_of_slice", lambda a: a.flags["C_CONTIGUOUS"] and len(a) > 2,
+     lambda a, TA, ta: ta(np.asarray(a)[1:]), lambda m: m[1:]),
 ]
 
-BVIEWS = [
-    ("view_ndarray", lambda a: True, lambda a: a.view(np.ndarray)),
-    ("asarray", lambda a: True, lambda a: np.asarray(a)),
-    ("array_copy_false", lambda a: True, lambda a: np.array(a, copy=False)),
-    ("dunder_array", lambda a: True, lambda a: a.__array__()),
-    ("asarray_slice", lambda a: len(a) > 2, lambda a: np.asarray(a)[1:]),
-]
+
+def _start(rng, j, n):
+    """first catalogue index tried for variant rng at step j (multiplier coprime to the catalogue size)"""
+    m = next(c for c in (7, 11, 13, 17, 19) if n % c)
+    return rng * m + j * 3
+
+
+def _layout_copy(m, root):
+    """plain ndarray with the dtype, shape and strides of m over a private copy of the buffer of root"""
+    flat = np.array(root).reshape(-1).view(np.uint8)
+    off = m.__array_interface__["data"][0] - root.__array_interface__["data"][0]
+    if off < 0 or off >= max(flat.size, 1):
+        raise ValueError("selection outside the root buffer")
+    return np.ndarray(m.shape, m.dtype, buffer=flat, offset=off, strides=m.strides)
+
+
+def _same_memory(x, y):
+    """x and y are the same selection of the same memory"""
+    xi, yi = x.__array_interface__, y.__array_interface__
+    return (xi["data"][0] == yi["data"][0] and x.shape == y.shape and x.dtype == y.dtype
+            and (x.strides == y.strides or x.size <= 1 or np.array_equal(x, y)))
 
 # byte-preserving readers; whether a route marks its source dirty is probed on the tree under test
 READS = [
@@ -303,15 +524,26 @@ def probe_reads(caching):
     return cls
 
 
-class Failure(Exception):
-    pass
+def _scene3(trimesh, m):
+    from trimesh.path.entities import Line
+    sc = trimesh.Scene()
+    sc.add_geometry(trimesh.PointCloud(KINDS["f3"]()[:4] * 2), node_name="n0", geom_name="cloud")
+    sc.add_geometry(m, node_name="n1", geom_name="mesh", transform=trimesh.transformations.translation_matrix([9, 0, 0]))
+    sc.add_geometry(trimesh.path.Path2D(entities=[Line([0, 1, 2, 3, 4, 0])], vertices=KINDS["f2"](), process=False),
+                    node_name="n2", geom_name="path")
+    return sc
 
 
-def replay_one(env, beh, variant, kind, container):
-    """Replay one abstract program. Returns (failures, stats)."""
+def replay_one(env, beh, variant, kind, container, stats):
+    """Replay one abstract program. Returns (failures, known, drift); counts what was exercised in stats."""
     caching, hash_fast, trimesh, readcls = env
     h = beh["h"]
     fails, known, drift = [], [], 0
+    made = {"r": "root", "s": "root"}      # how each object came to be
+    lastw = {}                              # buffer -> (op, route, creation route of the object written through)
+
+    def count(key):
+        stats[key] = stats.get(key, 0) + 1
     rng = variant
     objs, mirror = {}, {}
     holder = None
@@ -339,6 +571,30 @@ def replay_one(env, beh, variant, kind, container):
         m = trimesh.Trimesh(vertices=raw_r.copy(), faces=np.array([[0, 1, 2], [2, 3, 4], [3, 4, 5]]), process=False)
         holder = trimesh.Scene(m)
         objs["r"], objs["s"] = m.vertices, m.faces
+    elif container == "path2d" and kind == "f2":
+        from trimesh.path.entities import Line
+        holder = trimesh.path.Path2D(entities=[Line([0, 1, 2, 3, 4, 0])], vertices=raw_r.copy(), process=False)
+        objs["r"] = holder.vertices
+        objs["s"] = caching.tracked_array(raw_s)
+    elif container == "facecolor" and kind == "u4":
+        m = trimesh.Trimesh(vertices=KINDS["f3"](), faces=[[0, 1, 2], [1, 2, 3], [2, 3, 4], [3, 4, 5]], process=False)
+        m.visual.face_colors = raw_r.copy()
+        holder = m.visual
+        objs["r"] = holder._data["face_colors"]
+        objs["s"] = caching.tracked_array(raw_s)
+    elif container == "texture" and kind == "f2":
+        holder = trimesh.visual.TextureVisuals(uv=raw_r.copy())
+        objs["r"] = holder.vertex_attributes["uv"]
+        objs["s"] = caching.tracked_array(raw_s)
+    elif container == "pointcolor" and kind == "u4":
+        holder = trimesh.PointCloud(KINDS["f3"]()[:4], colors=raw_r.copy()).visual
+        objs["r"] = holder._colors
+        objs["s"] = caching.tracked_array(raw_s)
+    elif container == "scene3" and kind == "f3":
+        # scene of a point cloud, a mesh and a path: the tracked roots are the arrays of the mesh
+        m = trimesh.Trimesh(vertices=raw_r.copy(), faces=np.array([[0, 1, 2], [2, 3, 4], [3, 4, 5]]), process=False)
+        holder = _scene3(trimesh, m)
+        objs["r"], objs["s"] = m.vertices, m.faces
     else:
         container = None
         objs["r"] = caching.tracked_array(raw_r)
@@ -352,14 +608,15 @@ def replay_one(env, beh, variant, kind, container):
             raise MachineryError("mirror does not share memory")
         a.__hash__()  # the model's initial state: every root hashed once
     routes_used = []
+    count("combo:%s/%s" % (kind, container))
     init_bytes = {k: np.ascontiguousarray(mirror[k]).tobytes() for k in ("r", "s")}
     init_hash = holder.__hash__() if holder is not None else None
-    members = ["r", "s"] if container in ("mesh", "scene") else ["r"]
+    members = ["r", "s"] if container in ("mesh", "scene", "scene3") else ["r"]
 
     def pick(cat, a, j, extra=None):
         n = len(cat)
         for t in range(n):
-            name, ok, f = cat[(rng * 7 + j * 3 + t) % n]
+            name, ok, f = cat[(_start(rng, j, n) + t) % n]
             try:
                 if ok(a) and (extra is None or extra(name, f)):
                     return name, f
@@ -380,6 +637,9 @@ def replay_one(env, beh, variant, kind, container):
                        "kind": kind, "container": container, "program": h}
                 if st["stale"] and st["dev"]:
                     known.append((st["dev"], rec))
+                    lw = lastw.get(an if an in ("r", "s") else "r", ("?", "?", "?"))
+                    for dv in st["dev"]:
+                        count("known:%s <- %s:%s through %s; read on %s" % (dv, lw[0], lw[1], lw[2], made[an]))
                 else:
                     fails.append(rec)
                     return fails, known, drift
@@ -387,7 +647,12 @@ def replay_one(env, beh, variant, kind, container):
                 drift += 1
         elif op in ("write_over", "write_clevel", "write_base"):
             cat = {"write_over": WRITE_OVER, "write_clevel": WRITE_CLEVEL, "write_base": WRITE_BASE}[op]
-            name, f = pick(cat, a, j)
+            def runs_on_plain_copy(name, f, _m=mirror[an], _root=mirror[an if an in ("r", "s") else "r"]):
+                # the route must be executable for this dtype / shape / memory layout (judged on a plain
+                # copy of the whole buffer with the same selection, never on the object under test)
+                f(_layout_copy(_m, _root))
+                return True
+            name, f = pick(cat, a, j, runs_on_plain_copy)
             if name is None:
                 return fails, known, drift  # no applicable route: abandon (counted by caller)
             before = np.ascontiguousarray(mirror[an]).tobytes()
@@ -396,9 +661,10 @@ def replay_one(env, beh, variant, kind, container):
             except Exception as e:
                 raise MachineryError(f"route {name} raised {type(e).__name__}: {e} on {kind}")
             routes_used.append(name)
-            if np.ascontiguousarray(mirror[an]).tobytes() == before:
-                # bytes did not change (e.g. sort of sorted data): harmless, staleness unobservable
-                pass
+            if np.ascontiguousarray(mirror[an]).tobytes() != before:
+                # (when the bytes did not change, e.g. sort of sorted data, staleness is unobservable)
+                count(op + ":" + name)
+                lastw[an if an in ("r", "s") else "r"] = (op, name, made[an])
         elif op == "tview":
             vn = st["v"]
 
@@ -413,16 +679,50 @@ def replay_one(env, beh, variant, kind, container):
                 raise MachineryError(f"view route {name} did not give a TrackedArray view")
             objs[vn], mirror[vn] = nv, f(mirror[an])
             routes_used.append(name)
+            made[vn] = name
+            count("tview:" + name)
         elif op == "bview":
             vn = st["v"]
-            name, f = pick(BVIEWS, a, j)
-            nv = f(a)
-            if isinstance(nv, caching.TrackedArray) or not np.shares_memory(nv, a):
-                raise MachineryError(f"base view route {name} gave {type(nv)}")
-            # same selection on the mirror
-            mv = mirror[an][1:] if name == "asarray_slice" else mirror[an]
+            nv = None
+            for t in range(len(BVIEWS)):
+                name, ok, f, fm = BVIEWS[(_start(rng, j, len(BVIEWS)) + t) % len(BVIEWS)]
+                try:
+                    if not ok(a):
+                        continue
+                    nv, mv = f(a), fm(mirror[an])
+                except Exception:
+                    nv = None
+                    continue
+                break
+            if nv is None:
+                return fails, known, drift
+            if isinstance(nv, caching.TrackedArray) or not _same_memory(nv, mv):
+                raise MachineryError(f"base view route {name} gave {type(nv)} / not the mirrored memory")
             objs[vn], mirror[vn] = nv, mv
             routes_used.append(name)
+            made[vn] = name
+            count("bview:" + name)
+        elif op == "qview":
+            vn = st["v"]
+            nv = None
+            for t in range(len(QVIEWS)):
+                name, ok, f, fm = QVIEWS[(_start(rng, j, len(QVIEWS)) + t) % len(QVIEWS)]
+                try:
+                    if not ok(a):
+                        continue
+                    nv, mv = f(a, caching.TrackedArray, caching.tracked_array), fm(mirror[an])
+                except Exception:
+                    nv = None
+                    continue
+                break
+            if nv is None:
+                return fails, known, drift
+            if type(nv) is not caching.TrackedArray or not _same_memory(nv, mv):
+                raise MachineryError(f"quiet alias route {name} gave {type(nv)} / not the mirrored memory")
+            objs[vn], mirror[vn] = nv, mv
+            routes_used.append(name)
+            made[vn] = name
+            count("qview:" + name)
         elif op in ("read_d", "read_c"):
             n = len(READS)
             done = False
@@ -448,6 +748,7 @@ def replay_one(env, beh, variant, kind, container):
             raise MachineryError("unknown op " + op)
     # container hash at the end of the program: a function of the members' hashes
     if holder is not None:
+        count("container_hash_compared:" + container)
         got = holder.__hash__()
         if container == "mesh":
             fresh = trimesh.Trimesh(vertices=np.array(mirror["r"]), faces=np.array(mirror["s"]), process=False)
@@ -460,12 +761,26 @@ def replay_one(env, beh, variant, kind, container):
             m = trimesh.Trimesh(vertices=KINDS["f3"]()[:4], faces=[[0, 1, 2], [1, 2, 3]], process=False)
             m.visual.vertex_colors = np.array(mirror["r"])
             fresh = m.visual
+        elif container == "path2d":
+            from trimesh.path.entities import Line
+            fresh = trimesh.path.Path2D(entities=[Line([0, 1, 2, 3, 4, 0])], vertices=np.array(mirror["r"]), process=False)
+        elif container == "facecolor":
+            m = trimesh.Trimesh(vertices=KINDS["f3"](), faces=[[0, 1, 2], [1, 2, 3], [2, 3, 4], [3, 4, 5]], process=False)
+            m.visual.face_colors = np.array(mirror["r"])
+            fresh = m.visual
+        elif container == "texture":
+            fresh = trimesh.visual.TextureVisuals(uv=np.array(mirror["r"]))
+        elif container == "pointcolor":
+            fresh = trimesh.PointCloud(KINDS["f3"]()[:4], colors=np.array(mirror["r"])).visual
+        elif container == "scene3":
+            fresh = _scene3(trimesh, trimesh.Trimesh(vertices=np.array(mirror["r"]), faces=np.array(mirror["s"]), process=False))
         else:
             m = trimesh.Trimesh(vertices=np.array(mirror["r"]), faces=np.array(mirror["s"]), process=False)
             fresh = trimesh.Scene(m)
         want = fresh.__hash__()
         changed = any(np.ascontiguousarray(mirror[k]).tobytes() != init_bytes[k] for k in members)
-        predicted_stale = any(beh["fin"][k]["stale"] for k in members)
+        fin = {k: beh["fin"].get(k, {"stale": False, "dev": []}) for k in members}   # one-root programs never touch s
+        predicted_stale = any(fin[k]["stale"] for k in members)
         if changed and got == init_hash and not predicted_stale:
             # the oracle above is built by the code under test; this clause is independent of it:
             # a container whose member bytes changed must not keep its hash
@@ -475,7 +790,7 @@ def replay_one(env, beh, variant, kind, container):
             fails.append({"clause": "ContainerHashStableWithoutWrite", "container": container,
                           "routes": routes_used, "program": h})
         if got != want:
-            devs = sorted({d for k in members if beh["fin"][k]["stale"] for d in beh["fin"][k]["dev"]})
+            devs = sorted({d for k in members if fin[k]["stale"] for d in fin[k]["dev"]})
             rec = {"clause": "ContainerHashFresh", "container": container, "routes": routes_used, "program": h}
             if devs:
                 known.append((devs, rec))
@@ -491,13 +806,11 @@ def _chunk(args):
     out_f, out_k = [], {}
     drift = 0
     n = 0
-    combos = [("f3", None), ("i3", None), ("u4", None), ("i1", None), ("f3", "mesh"), ("f3", "path"),
-              ("f3", "points"), ("u4", "visual"), ("f3", "scene")]
-    routes = set()
+    stats = {}
     for idx, beh, nvar in args:
         for v in range(nvar):
-            kind, cont = combos[(idx + v) % len(combos)]
-            f, k, d = replay_one(env, beh, idx * 3 + v + seed(), kind, cont)
+            kind, cont = COMBOS[(idx + v) % len(COMBOS)]
+            f, k, d = replay_one(env, beh, idx * 3 + v + seed(), kind, cont, stats)
             n += 1
             drift += d
             out_f.extend(f)
@@ -506,7 +819,14 @@ def _chunk(args):
                     out_k.setdefault(dv, []).append(rec)
     for k in out_k:
         out_k[k] = (len(out_k[k]), out_k[k][:2])
-    return out_f[:50], out_k, drift, n
+    return out_f[:50], out_k, drift, n, stats
+
+
+# (array kind, container) pairs the programs are replayed on
+COMBOS = [("f3", None), ("i3", None), ("u4", None), ("i1", None), ("f3", "mesh"), ("f3", "path"),
+          ("f3", "points"), ("u4", "visual"), ("f3", "scene"),
+          ("f2", None), ("b3", None), ("f1", None), ("f44", None), ("f2", "path2d"), ("u4", "facecolor"),
+          ("f2", "texture"), ("u4", "pointcolor"), ("f3", "scene3")]
 
 
 def equal_arrays_hash_equal(trimesh, V):
@@ -565,7 +885,73 @@ def equal_arrays_hash_equal(trimesh, V):
     return n
 
 
+def more_equal_array_routes(trimesh, V):
+    """'two meshes holding equal vertex and face arrays hash equal', further construction routes: narrower
+    input dtypes, arrays assigned in the other order, copies, pickling, arrays that went through edits and
+    back, non-contiguous / read-only inputs; for meshes, point clouds and 2D paths."""
+    import copy
+    import pickle
+    from trimesh.path.entities import Line
+    n = 0
+    rs = np.random.RandomState(seed() + 17)
+    for _ in range(60):
+        v = rs.randint(-3, 4, size=(6, 3)).astype(float) / 2
+        f = rs.randint(0, 6, size=(4, 3))
+        a = trimesh.Trimesh(v.copy(), f.copy(), process=False)
+        ms = {"reference": a}
+        ms["float32_uint8_input"] = trimesh.Trimesh(v.astype(np.float32), f.astype(np.uint8), process=False)
+        b = trimesh.Trimesh(process=False)
+        b.faces = f.copy()
+        b.vertices = v.copy()
+        ms["faces_assigned_first"] = b
+        ms["copy"] = a.copy()
+        ms["copy_copy"] = copy.copy(a)
+        ms["deepcopy"] = copy.deepcopy(a)
+        ms["pickle"] = pickle.loads(pickle.dumps(a))
+        c = trimesh.Trimesh(v + 1, f[::-1].copy(), process=False)
+        c.vertices -= 1
+        c.faces[:] = c.faces[::-1].copy()
+        c.__hash__()
+        ms["edited_back"] = c
+        wide = np.zeros((6, 6))
+        wide[:, ::2] = v
+        ro = f.copy()
+        ro.setflags(write=False)
+        ms["strided_and_readonly_input"] = trimesh.Trimesh(wide[:, ::2], ro, process=False)
+        d = trimesh.Trimesh(v.copy(), f.copy(), process=False)
+        d.__hash__()
+        d.vertices = v.copy()
+        d.faces = f.copy()
+        ms["reassigned_after_hash"] = d
+        hs = {k: m.__hash__() for k, m in ms.items()}
+        n += len(ms)
+        if len(set(hs.values())) != 1:
+            V.violation("EqualArraysHashEqual", {"vertices": v.tolist(), "faces": f.tolist(),
+                                                 "hashes": {k: str(x) for k, x in hs.items()}})
+        # point clouds and paths holding equal vertex arrays
+        p2 = v[:5, :2].copy()
+        pcs = [trimesh.PointCloud(v.copy()), trimesh.PointCloud(v.tolist()), trimesh.PointCloud(v.astype(np.float32)),
+               trimesh.PointCloud(v.copy()).copy()]
+        paths = [trimesh.path.Path2D(entities=[Line([0, 1, 2, 3, 4, 0])], vertices=x, process=False)
+                 for x in (p2.copy(), p2.tolist(), np.asfortranarray(p2))]
+        paths.append(paths[0].copy())
+        for name, objs in (("pointcloud", pcs), ("path2d", paths)):
+            hs = [o.__hash__() for o in objs]
+            n += len(objs)
+            if len(set(hs)) != 1:
+                V.violation("EqualArraysHashEqual", {"object": name, "vertices": v.tolist(), "hashes": [str(x) for x in hs]})
+    return n
+
+
+def _tlc_job(args):
+    name, module, cfg_text, kw = args
+    d = tlc.prepare("c02/" + name)
+    return name, tlc.run(d, module, cfg_text, **kw)
+
+
 def main(argv):
+    from concurrent.futures import ThreadPoolExecutor
+    from checks import c02_containers as cc
     tier = tier_from_args(argv)
     V = Verdict(PROP, tier)
     trimesh = import_trimesh()
@@ -578,44 +964,71 @@ def main(argv):
         trans += r.generated
         cov["tlc_runs"].append({"run": name, "distinct": r.distinct, "generated": r.generated, "wall_s": round(r.wall, 1)})
 
-    d = tlc.prepare("c02/mc")
-    big = dict(tv="TV2", depth=9)
-    r = tlc.must(tlc.run(d, "TrackedArray", cfg(asb=False, invs=["HashFresh", "MemoNeverAhead", "ContainerFresh"], **big)), "intended")
-    note("intended design: HashFresh", r)
-    r = tlc.must(tlc.run(d, "TrackedArray", cfg(asb=True, invs=["StaleIsExplained", "MemoNeverAhead", "ContainerFresh"], **big)), "asbuilt")
-    note("as-built: every stale hash explained by a named deviation", r)
-    r = tlc.run(d, "TrackedArray", cfg(asb=True, invs=["HashFresh"], **big))
-    if r.violated != "HashFresh":
+    # all TLC runs are independent of each other: model checking of the intended and the as-built design
+    # (with quiet aliases), and the emissions of the abstract programs
+    big = dict(tv="TV2", qv="QV1", depth=8)
+    depth = 5   # every program of 5 abstract steps (about 4e5); depth 6 would be 6e6 programs
+    dc = 7 if tier == "quick" else 9
+    dq = 8 if tier == "quick" else 10
+    jobs = [
+        ("intended", "TrackedArray", cfg(asb=False, invs=["HashFresh", "MemoNeverAhead", "ContainerFresh"], **big), dict(workers=4)),
+        ("asbuilt", "TrackedArray", cfg(asb=True, invs=["StaleIsExplained", "MemoNeverAhead", "ContainerFresh"], **big), dict(workers=4)),
+        ("asbuilt-cex", "TrackedArray", cfg(asb=True, invs=["HashFresh"], **big), dict(workers=2)),
+        ("emit", "TrackedArray", cfg(asb=True, depth=depth, invs=["EmitLeaf"], view=False), dict(workers=1, timeout=1800)),
+        ("emit-cover", "TrackedArray", cfg(asb=True, depth=dc, tv="TV2", invs=["EmitAll"]), dict(workers=1, timeout=1800)),
+        # programs with a quiet tracked alias (tracked_array(a), np.asarray(a).view(TrackedArray), ...)
+        ("emit-quiet", "TrackedArray", cfg(asb=True, depth=dq, roots="Roots1", qv="QV1", invs=["EmitAll"]), dict(workers=1, timeout=1800)),
+    ]
+    if tier == "thorough":
+        jobs.append(("emit-sim", "TrackedArray", cfg(asb=True, depth=10, tv="TV2", qv="QV1", invs=["EmitLeaf"], view=False),
+                     dict(workers=1, simulate="num=1500", depth=11, seed=seed() + 3, timeout=1800)))
+        jobs.append(("emit-quiet-all", "TrackedArray", cfg(asb=True, depth=5, roots="Roots1", qv="QV1", invs=["EmitLeaf"], view=False),
+                     dict(workers=1, timeout=1800)))
+    t_tlc = time.time()
+    with ThreadPoolExecutor(max_workers=len(jobs)) as ex:
+        futs = {j[0]: ex.submit(_tlc_job, j) for j in jobs}
+        # meanwhile: the container-level histories on the real objects (about a second)
+        ccases, cper = cc.cases(trimesh, tier, seed())
+        res = {k: f.result()[1] for k, f in futs.items()}
+    cov["tlc_wall_s"] = round(time.time() - t_tlc, 1)
+    note("intended design (2 tracked views, base view, quiet alias): HashFresh", tlc.must(res["intended"], "intended"))
+    note("as-built: every stale hash explained by a named deviation", tlc.must(res["asbuilt"], "asbuilt"))
+    if res["asbuilt-cex"].violated != "HashFresh":
         raise MachineryError("as-built model unexpectedly satisfies HashFresh: it no longer explains the known findings")
     cov["asbuilt_counterexample"] = "HashFresh violated as predicted"
-
-    # emission: every abstract program up to the depth (no VIEW: the history is the state)
-    d = tlc.prepare("c02/emit")
-    depth = 5   # every program of 5 abstract steps (about 4e5); depth 6 would be 6e6 programs
-    r = tlc.must(tlc.run(d, "TrackedArray", cfg(asb=True, depth=depth, invs=["EmitLeaf"], view=False), workers=1, timeout=1800), "emit")
-    note(f"emit all programs of {depth} steps (1 tracked view, 1 base view, 2 roots)", r)
-    behs = list(r.printed)
+    note(f"emit all programs of {depth} steps (1 tracked view, 1 base view, 2 roots)", tlc.must(res["emit"], "emit"))
+    behs = list(res["emit"].printed)
     n_a = len(behs)
-    # deeper programs with two simultaneous tracked views: state cover
-    dc = 7 if tier == "quick" else 9
-    r = tlc.must(tlc.run(d, "TrackedArray", cfg(asb=True, depth=dc, tv="TV2", invs=["EmitAll"]), workers=1, timeout=1800), "emit-cover")
-    note(f"emit state cover depth {dc} (2 tracked views)", r)
-    behs += r.printed
+    note(f"emit state cover depth {dc} (2 tracked views)", tlc.must(res["emit-cover"], "emit-cover"))
+    behs += res["emit-cover"].printed
+    note(f"emit state cover depth {dq} with a quiet tracked alias", tlc.must(res["emit-quiet"], "emit-quiet"))
+    quiet = [b for b in res["emit-quiet"].printed if any(s["op"] == "qview" for s in b["h"])]
     if tier == "thorough":
-        r = tlc.run(d, "TrackedArray", cfg(asb=True, depth=10, tv="TV2", invs=["EmitLeaf"], view=False), workers=1,
-                    simulate="num=1500", depth=11, seed=seed() + 3, timeout=1800)
-        note("simulate depth 10", r)
-        behs += r.printed
+        note("simulate depth 10", res["emit-sim"])
+        behs += res["emit-sim"].printed
+        note("emit all programs of 5 steps with a quiet tracked alias (1 root)", tlc.must(res["emit-quiet-all"], "emit-quiet-all"))
+        quiet += [b for b in res["emit-quiet-all"].printed if any(s["op"] == "qview" for s in b["h"])]
     if n_a < 1000:
         raise MachineryError("emission too small")
-    nvar = 2 if tier == "quick" else 9
+    if len(quiet) < 1000 or not any(s["op"] == "hash" and "ViewHeldAcrossHash" in s["dev"] and
+                                    not any(x["op"] == "tview" for x in b["h"]) for b in quiet for s in b["h"]):
+        raise MachineryError("quiet-alias emission too small / predicts no stale read through a quiet alias")
+    n_q = len(quiet)
+    behs += quiet
+    nvar = 2 if tier == "quick" else len(COMBOS)   # thorough: every program on every array kind / container
+    nvar_q = 10 if tier == "quick" else 18
     t0 = time.time()
-    results = pmap(_chunk, [(i, b, nvar) for i, b in enumerate(behs)])
+    work = [(i, b, nvar) for i, b in enumerate(behs[:len(behs) - n_q])] + \
+           [(i, b, nvar_q) for i, b in enumerate(quiet)]
+    results = pmap(_chunk, work)
     nrep = 0
     drift = 0
-    for f, k, dft, n in results:
+    stats = {}
+    for f, k, dft, n, st in results:
         nrep += n
         drift += dft
+        for key, c in st.items():
+            stats[key] = stats.get(key, 0) + c
         for rec in f:
             V.violation(rec["clause"], rec)
         for dv, (cnt, samples) in k.items():
@@ -627,24 +1040,77 @@ def main(argv):
                 V.known_hits[dv].extend([samples[0]] * 0)
                 cov.setdefault("known_counts", {})
                 cov["known_counts"][dv] = cov["known_counts"].get(dv, 0) + cnt
+    replay_wall = time.time() - t0
+    # coverage guards: every catalogue entry, array kind and container really took part
+    need = 20 if tier == "quick" else 100
+    for op, cat, new in (("write_over", WRITE_OVER, NEW_OVER), ("write_clevel", WRITE_CLEVEL, NEW_CLEVEL),
+                         ("tview", TVIEWS, NEW_TVIEWS), ("bview", BVIEWS, NEW_BVIEWS), ("qview", QVIEWS, None)):
+        for entry in cat:
+            if stats.get(op + ":" + entry[0], 0) < need:
+                raise MachineryError(f"route {op}:{entry[0]} exercised only {stats.get(op + ':' + entry[0], 0)} times")
+        for name in new or ():
+            if name not in [e[0] for e in cat]:
+                raise MachineryError("catalogue lost " + name)
+    for kind, cont in COMBOS:
+        if stats.get("combo:%s/%s" % (kind, cont), 0) < 1000:
+            raise MachineryError(f"array kind / container {kind}/{cont} hardly exercised")
+        if cont and stats.get("container_hash_compared:" + cont, 0) < 200:
+            raise MachineryError(f"container {cont}: hash hardly compared")
+    attributed = {k[6:]: c for k, c in stats.items() if k.startswith("known:")}
+
+    def n_attr(dev, word):
+        return sum(c for k, c in attributed.items() if k.startswith(dev) and word in k)
+    # the stale reads the reviewer listed are each attributed by the as-built model (or would be violations above)
+    listed = {"np.copyto": n_attr("CLevelWrite", ":copyto"), "ufunc out=": n_attr("CLevelWrite", ":ufunc_out") +
+              n_attr("CLevelWrite", ":out_tuple") + n_attr("CLevelWrite", ":out_positional") + n_attr("CLevelWrite", ":out_where"),
+              ".flat assignment": n_attr("CLevelWrite", ":flat_"), "np.frombuffer alias": n_attr("BaseClassViewWrite", "through frombuffer"),
+              "view held across a hash read": n_attr("ViewHeldAcrossHash", "write_over"),
+              "quiet tracked alias": sum(n_attr("ViewHeldAcrossHash", "through " + q[0]) for q in QVIEWS)}
+    # (on a tree where one of these routes has become fresh a zero here is good news, so it is only recorded)
+    cov["stale_reads_attributed"] = listed
+
+    # container-level histories judged by TLC
+    if len(ccases) < 1000 or min(cper.values()) < 50:
+        raise MachineryError("container histories: enumeration came out nearly empty: %r" % (cper,))
+    rejects, cstates, cwall = tlc.validate_batches("c02/containers", "C02ContainerHash", ccases, cc.CFG, shards=2)
+    states += cstates
+    trans += cstates
+    for cid, clause in sorted(rejects.items()):
+        c = ccases[cid]
+        V.violation("Container" + clause, {k: v for k, v in c.items() if k != "id"})
     n_eq = equal_arrays_hash_equal(trimesh, V)
+    n_eq2 = more_equal_array_routes(trimesh, V)
+    if n_eq2 < 500:
+        raise MachineryError("equal-array construction routes: too few comparisons")
+    top = sorted(attributed.items(), key=lambda kv: -kv[1])
     cov.update({
         "states": states, "transitions": trans,
-        "traces_validated_against_impl": nrep,
+        "traces_validated_against_impl": nrep + len(ccases),
         "abstract_programs": len(behs),
+        "abstract_programs_with_quiet_alias": n_q,
+        "replays": nrep,
         "model_drift_fresh_where_stale_predicted": drift,
         "equal_array_meshes_compared": n_eq,
+        "equal_array_objects_compared_further_routes": n_eq2,
+        "container_histories": {"validated_by_tlc": len(ccases), "per_kind": cper, "rejected": len(rejects),
+                                "tlc_wall_s": round(cwall, 1), "templates": cc.TEMPLATES,
+                                "edits": [e[0] for e in cc.EDITS]},
+        "exercised": {k: c for k, c in sorted(stats.items()) if not k.startswith("known:")},
+        "known_attribution_by_route": dict(top[:60]),
+        "known_attribution_distinct_route_pairs": len(top),
         "exhaustive": True,
         "route_catalogue": {"write_over": [x[0] for x in WRITE_OVER], "write_clevel": [x[0] for x in WRITE_CLEVEL],
                             "write_base": [x[0] for x in WRITE_BASE], "tracked_views": [x[0] for x in TVIEWS],
-                            "base_views": [x[0] for x in BVIEWS], "reads": [x[0] for x in READS],
-                            "array_kinds": list(KINDS), "containers": ["mesh", "path", "points", "visual", "scene"]},
-        "samples": [behs[n_a // 2]["h"], behs[-1]["h"]],
-        "replay_wall_s": round(time.time() - t0, 1),
+                            "base_views": [x[0] for x in BVIEWS], "quiet_tracked_aliases": [x[0] for x in QVIEWS],
+                            "reads": [x[0] for x in READS],
+                            "array_kinds": list(KINDS), "containers": sorted({c for _, c in COMBOS if c})},
+        "samples": [behs[n_a // 2]["h"], quiet[len(quiet) // 2]["h"], ccases[len(ccases) // 2]],
+        "replay_wall_s": round(replay_wall, 1),
     })
     return V.finish("model_checking", cov, assumptions=[
         "hashes abstracted to the byte version they were computed from (collisions of the 64-bit hash ignored)",
-        "route catalogue is finite (listed in coverage.route_catalogue); dtypes float64, int64, uint8",
+        "route catalogue is finite (listed in coverage.route_catalogue); dtypes float64, int64, uint8, bool; "
+        "shapes (n,3), (n,4), (n,2), (n,), (4,4), (a,b,c)",
     ])
 
 
